@@ -1,6 +1,16 @@
 //@ inject: src/debugger/call/mod.rs
 //@ anchor: src/debugger/call/mod.rs :: fn get_reg_for_no
 //@ anchor: src/debugger/call/mod.rs :: impl CallArgs / fn prepare_registers
+//@ anchor: src/debugger/call/mod.rs :: impl CallHelper / fn call_fn
+//@ anchor: src/debugger/call/mod.rs :: impl CallHelper / fn jump
+//@ fragment: CALLFN :: src/debugger/call/mod.rs :: impl CallHelper / fn call_fn :: `const CALL_FN: usize =` .. `;`
+//@ fragment: CALLREGS :: src/debugger/call/mod.rs :: impl CallHelper / fn call_fn :: `let mut regs: RegisterMap = ccx.regs.clone();` .. `regs.update(Register::Rip, rip);`
+//@ fragment: JMPTEXT :: src/debugger/call/mod.rs :: impl CallHelper / fn jump :: `const JMP_RAX: usize` .. `let new_text = (ccx.text & JMP_RAX_MASK) | JMP_RAX;`
+//@ harness: name=c16_trampoline prop=C16 unit=C16.trampoline mode=complete fn="CallHelper::call_fn (trampoline word + register set-up statements), CallHelper::jump (jmp *%rax patch word)" timeout=600
+//@ anchor: src/debugger/call/mod.rs :: impl CallContext<'a> / fn retrieve_original_state
+//@ fragment: RESTORE :: src/debugger/call/mod.rs :: impl CallContext<'a> / fn retrieve_original_state :: `self.regs.clone().persist(self.pid)?;` .. `Ok(())`
+//@ harness: name=c16_restore prop=C16 unit=C16.restore mode=complete fn="CallContext::retrieve_original_state" timeout=600
+//@ assume: C16.restore: `self.dbg.write_memory` is replaced by a recorder with the signature of Debugger::write_memory (one PTRACE_POKEDATA); nix::sys::ptrace::setregs is stubbed by a recorder
 //@ harness: name=c16_reg_for_no prop=C16 unit=C16.reg_for_no mode=complete fn="get_reg_for_no"
 //@ harness: name=c16_prepare prop=C16 unit=C16.prepare mode=complete fn="CallArgs::prepare_registers" timeout=600
 //@ notcovered: liter_to_arg_bin_repr (needs a populated ComplexType HashMap), mmap/munmap/jump sequencing through ptrace, exactly-once execution, error paths of with_ccx, vard/argd formatting, the CallCache
@@ -60,4 +70,107 @@ fn check_prepare(n: usize) {
 fn c16_prepare() {
     let mut n = 0;
     while n <= 6 { check_prepare(n); n += 1; }
+}
+
+
+// ---- trampoline words and register set-up (statement fragments of call_fn / jump, spliced verbatim)
+struct Ccx { regs: RegisterMap, text: usize }
+
+fn call_fn_word() -> usize {
+    /*@@FRAGMENT:CALLFN*/
+    CALL_FN
+}
+
+fn call_fn_regs(ccx: &Ccx, rip: u64, fn_addr: u64, args: CallArgs) -> RegisterMap {
+    /*@@FRAGMENT:CALLREGS*/
+    regs
+}
+
+fn jump_word(ccx: &Ccx) -> usize {
+    /*@@FRAGMENT:JMPTEXT*/
+    new_text
+}
+
+#[kani::proof]
+#[kani::unwind(8)]
+fn c16_trampoline() {
+    // x86-64 encoding: FF D0 = call *%rax ; CC = int3 ; FF E0 = jmp *%rax
+    let w = call_fn_word().to_le_bytes();
+    assert!(w[0] == 0xFF && w[1] == 0xD0 && w[2] == 0xCC, "C16.trampoline.E1 the injected text is `call *%rax; int3`");
+    assert!(w[3] == 0 && w[4] == 0 && w[5] == 0 && w[6] == 0 && w[7] == 0, "C16.trampoline.E2 nothing else is injected");
+
+    let words: [u64; 27] = kani::any();
+    let raw: nix::libc::user_regs_struct = unsafe { core::mem::transmute(words) };
+    let ccx = Ccx { regs: RegisterMap::from(raw), text: kani::any() };
+    let old = ccx.regs.clone();
+
+    let j = jump_word(&ccx).to_le_bytes();
+    let t = ccx.text.to_le_bytes();
+    assert!(j[0] == 0xFF && j[1] == 0xE0, "C16.trampoline.E3 the jump patch is `jmp *%rax`");
+    assert!(j[2] == t[2] && j[3] == t[3] && j[4] == t[4] && j[5] == t[5] && j[6] == t[6] && j[7] == t[7],
+        "C16.trampoline.E4 the other six bytes of the patched word are the original code bytes");
+
+    let rip: u64 = kani::any();
+    let fn_addr: u64 = kani::any();
+    let a0: u64 = kani::any();
+    let a1: u64 = kani::any();
+    let args = CallArgs(vec![(a0, RegType::General), (a1, RegType::General)].into_boxed_slice());
+    let regs = call_fn_regs(&ccx, rip, fn_addr, args);
+    assert!(regs.value(Register::Rax) == fn_addr, "C16.trampoline.E5 rax holds the function address the trampoline calls");
+    assert!(regs.value(Register::Rip) == rip, "C16.trampoline.E6 rip points at the trampoline");
+    assert!(regs.value(Register::Rdi) == a0 && regs.value(Register::Rsi) == a1, "C16.trampoline.E7 the arguments are in place");
+    let r_i: usize = kani::any();
+    kani::assume(r_i < 27);
+    let r = ALL[r_i];
+    if r != Register::Rax && r != Register::Rip && r != Register::Rdi && r != Register::Rsi {
+        assert!(regs.value(r) == old.value(r), "C16.trampoline.E8 every other register keeps the value saved at the call (incl. rsp)");
+    }
+}
+
+
+// ---- state restore after an injected call (body of retrieve_original_state, spliced verbatim)
+static mut SETREGS_CALLS: u32 = 0;
+static mut SETREGS_IMG: [u64; 27] = [0; 27];
+static mut POKE_CALLS: u32 = 0;
+static mut POKE_ADDR: usize = 0;
+static mut POKE_VAL: usize = 0;
+
+fn stub_setregs(_pid: nix::unistd::Pid, regs: nix::libc::user_regs_struct) -> nix::Result<()> {
+    unsafe {
+        SETREGS_CALLS += 1;
+        SETREGS_IMG = core::mem::transmute(regs);
+    }
+    Ok(())
+}
+
+struct RecDbg;
+impl RecDbg {
+    fn write_memory(&self, addr: usize, value: usize) -> Result<(), Error> {
+        unsafe { POKE_CALLS += 1; POKE_ADDR = addr; POKE_VAL = value; }
+        Ok(())
+    }
+}
+
+struct SavedState { dbg: RecDbg, pid: nix::unistd::Pid, pc: RelocatedAddress, regs: RegisterMap, text: usize }
+impl SavedState {
+    fn retrieve_original_state(self) -> Result<(), Error> {
+        /*@@FRAGMENT:RESTORE*/
+    }
+}
+
+#[kani::proof]
+#[kani::stub(nix::sys::ptrace::setregs, stub_setregs)]
+fn c16_restore() {
+    let words: [u64; 27] = kani::any();
+    let raw: nix::libc::user_regs_struct = unsafe { core::mem::transmute(words) };
+    let pc: usize = kani::any();
+    let text: usize = kani::any();
+    let st = SavedState { dbg: RecDbg, pid: nix::unistd::Pid::from_raw(kani::any()), pc: RelocatedAddress::from(pc), regs: RegisterMap::from(raw), text };
+    let r = st.retrieve_original_state();
+    assert!(r.is_ok(), "C16.restore.E0");
+    core::mem::forget(r);
+    unsafe {
+        assert!(SETREGS_CALLS == 1 && SETREGS_IMG == words, "C16.restore.E1 every register is restored to the value saved before the call");
+        assert!(POKE_CALLS == 1 && POKE_ADDR == pc && POKE_VAL == text, "C16.restore.E2 the code word at the saved pc is restored to the saved text");
+    }
 }
